@@ -303,7 +303,9 @@ class Template:
             # if template filename and a module directory, load
             # a filesystem-based module file, generating if needed
             if module_filename is not None:
-                path = module_filename
+                # absolute, like the path the import system gives the
+                # module: tracebacks and warnings find the template by it
+                path = os.path.abspath(module_filename)
             elif module_directory is not None:
                 path = os.path.abspath(
                     os.path.join(
